@@ -8,6 +8,7 @@ require (
 	github.com/massnetorg/mass-core v0.0.0-20210809014450-d944e876e3fb
 	github.com/syndtr/goleveldb v1.0.1-0.20210305035536-64b5b1c73954
 	golang.org/x/crypto v0.0.0-20210322153248-0c34fe9e7dc2
+	google.golang.org/grpc v1.24.0
 	massnet.org/mass-wallet v0.0.0
 )
 
